@@ -45,6 +45,28 @@ def lifecycle_set_follows(ck, C):
         U = [u.bb for u in set_calls(dreg, "unregister")]
         bad = T.t2_all_exits(dreg, starts, U, removed_edges=removed) if starts else None
         ck.verdict(bad is None, C, "T2-all-exits", dreg, "failed-register-leaves-no-entry", "every error exit after the add removes the token again", "the token is added to the lifecycle set before the source's register, and an error return leaves it there: the caller empties the slot and the next dispatch hits unreachable!()", site=dreg.where(r.bb), path=path_descr(dreg, bad) if bad else None)
+    # reregister: the token is (re)announced only once the source's own reregister succeeded
+    drr = ck.opt_body("<RefCell<DispatcherInner> as EventDispatcher>::reregister")
+    if drr is None:
+        ck.anchor_missing(C, "T3-must-precede", "<RefCell<DispatcherInner> as EventDispatcher>::reregister")
+    else:
+        A2 = set_calls(drr, "register")
+        R2 = T.calls(drr, name="reregister", trait="EventSource", self_kind=("param", "alias"))
+        for r in R2:
+            ok_e, err_e, direct = T.result_split(drr, r.bb)
+            for a in A2:
+                ck.verdict(bool(ok_e) and not direct and T.reachable_only_via(drr, a.bb, ok_e), C, "T3-must-precede", drr, "set-add-only-after-successful-reregister", "the token is announced to the lifecycle set only on the success edge of the source's reregister", "reregister announces the source to the lifecycle set before its own re-registration has succeeded: a failed update() of a disabled source puts it back into the set, so it receives before_sleep/before_handle_events while disabled", site=drr.where(a.bb))
+    # the set is keyed by *registration* tokens (sub-id cleared): every token under which an entry is
+    # removed in the batch loop must have its sub-id forgotten, or removal (full equality) misses it
+    for b2 in f.bodies.values():
+        for cs in T.calls(b2, name="new", path="RegistrationToken::new"):
+            if b2.is_cleanup(cs.bb):
+                continue
+            fs = [c.bb for c in T.calls(b2, name="forget_sub_id")]
+            ok = T.resolves_to_call(b2, cs.args[0], fs)
+            if not ok and b2.qual == "TokenFactory::registration_token":
+                ok = True
+            ck.verdict(ok, C, "T6-provenance", b2, "RegistrationToken::new(sub-id-free)", "registration tokens are built from a token whose sub-id was cleared", "a RegistrationToken is built from a token that still carries a sub-id: the lifecycle set compares whole tokens, so an entry registered under sub-id 0 is not removed (a disabled/removed multi-token source keeps receiving its hooks; unreachable!() after removal)", site=b2.where(cs.bb))
     # adds after success must be on the success edge only (T3, edge specific)
     dunreg = ck.body(C, "<RefCell<DispatcherInner> as EventDispatcher>::unregister")
     tb = T.calls(dunreg, name=("try_borrow_mut", "borrow_mut"), path="RefCell")
